@@ -948,8 +948,9 @@ def find_missing_callees(unit, ctx, text, workdir, repo):
     allmsg = ' '.join(msgs)
     for ln in set(l for l in err_lines if l and 0 < l <= len(tlines)):
         for mm in re.finditer(r'\.([a-z_][A-Za-z0-9_]*)\s*\(', tlines[ln - 1]):
-            # (only a method the compiler actually names in a complaint: a line that fails for another reason says nothing about the other calls on it)
-            if ('`%s`' % mm.group(1)) not in allmsg:
+            # (only a method the compiler actually names in a complaint, or a complaint of the "wrong receiver" kind -- `x.take(..)`: "is not an
+            # iterator" -- that names no method at all: a line that fails for another reason says nothing about the other calls on it)
+            if ('`%s`' % mm.group(1)) not in allmsg and not re.search(r'is not an iterator|trait bounds were not satisfied|method cannot be called', allmsg):
                 continue
             if not re.search(r'\bfn\s+%s\s*[<(]' % re.escape(mm.group(1)), text) and (mm.group(1), '*') not in wanted:
                 wanted.append((mm.group(1), '*'))
